@@ -53,6 +53,7 @@ def check_trace(r, dst_root, want_fsync):
     created = {}
     last_data = {}
     fsyncs = {}
+    refused = set()
     exit_at = None
     for e in r.trace:
         s = e["sys"]
@@ -75,6 +76,8 @@ def check_trace(r, dst_root, want_fsync):
         elif s == "ioctl" and e["a"][1] == xcp.FICLONE and p1.startswith(dst_root):
             last_data[p1] = max(last_data.get(p1, 0), e["x"])
         elif s in ("fsync", "fdatasync") and p1.startswith(dst_root):
+            if e.get("inj"):
+                refused.add(p1)      # this file's flush was refused by the injected answer: judged apart
             fsyncs.setdefault(p1, []).append((e["e"], e["x"], ret))
     for p in sorted(created):
         fs = fsyncs.get(p, [])
@@ -82,7 +85,7 @@ def check_trace(r, dst_root, want_fsync):
             if not fs:
                 probs.append("no fsync at all on %s" % p)
                 continue
-            good = [f for f in fs if f[0] > last_data[p] and f[2] == 0]
+            good = [f for f in fs if f[0] > last_data[p] and (f[2] == 0 or p in refused)]
             if not good:
                 probs.append("no fsync of %s entered after its last data/size call (last data exit %d, fsync entries %s)"
                              % (p, last_data[p], [f[0] for f in fs]))
@@ -102,7 +105,7 @@ def run(ctx, out):
     out.rule = ("trees with single-block, multi-block (2..16 blocks of 16 KiB), empty, all-hole, leading- and trailing-hole files; "
                 "both drivers, workers 1/2/4/16, random thread holds (several seeds), copy_file_range available or failing with "
                 "ENOSYS/EXDEV (user-space fallback), extended attributes refused by the destination (ENOSPC/EPERM/ENOTSUP/E2BIG/EACCES: "
-                "best effort, only warned about), --fsync on (oracle: fsync entered after the last data/size call of the "
+                "best effort, only warned about), ONE flush of the run refused (EINVAL/ENOSYS/EOPNOTSUPP/EIO: the others must still happen), --fsync on (oracle: fsync entered after the last data/size call of the "
                 "file and returned before exit) and off (oracle: no fsync); non-trivial = --fsync run with >= 2 workers; "
                 "distinct = (case, driver, workers, seed, fsync, cfr)")
     ncases = 3 if quick else 20
@@ -136,6 +139,12 @@ def run(ctx, out):
                     cfr = rng.choice([38, 18])
                     kw["rules"] = [("fail", cfr, 0, "copy_file_range", 0, "*")]
                     out.count("copy_file_range_unavailable")
+                if fs and rng.random() < 0.3:
+                    # ONE flush of the run is refused (a descriptor that cannot be synced: EINVAL / ENOSYS / EOPNOTSUPP / EIO):
+                    # that says nothing about the other files, each of which must still be flushed
+                    fe = rng.choice([22, 38, 95, 5])
+                    kw["rules"] = kw.get("rules", []) + [("fail", fe, 0, rng.choice(["fsync", "fsync", "fdatasync"]), rng.choice([1, 1, 2, 3]), "*")]
+                    out.count("one_fsync_refused_errno_%d" % fe)
                 if rng.random() < 0.3:
                     # the destination refuses the attribute (no space for it / not permitted / unsupported / too big)
                     xe = rng.choice([28, 1, 95, 7, 13])
@@ -146,8 +155,11 @@ def run(ctx, out):
             out.count("driver_" + driver)
             out.count("fsync_on" if fs else "fsync_off")
             rep = dict(case=k, argv=argv[1:], cfr_errno=cfr, seed=kw.get("seed"), files=files)
+            fsync_refused = any(ru[3] in ("fsync", "fdatasync") for ru in kw.get("rules", []))
+            rep["rules"] = kw.get("rules", [])
             if r.exit != 0:
-                out.violation("run failed (exit %d): %s" % (r.exit, r.stderr[-200:]), rep)
+                if not fsync_refused:      # a refused flush may (and ideally does) fail the run
+                    out.violation("run failed (exit %d): %s" % (r.exit, r.stderr[-200:]), rep)
                 continue
             dst_root = os.path.join(d, "dst")
             probs, created = check_trace(r, dst_root, fs)
@@ -156,6 +168,8 @@ def run(ctx, out):
             missing = [rel for rel in files if os.path.join(dst_root, rel) not in created]
             if missing:
                 out.violation("destination files never created: %s" % missing, rep)
+            if fsync_refused:
+                continue                   # the refused file's action list is not the model's: direct oracle only
             # R2a: per file mutating action sequence vs Ops.copy_actions
             for p in sorted(created):
                 codes = xcp.mut_codes(r, p)
